@@ -123,7 +123,7 @@ def _afl_body(L):
     return Implies(named, If(m, grown, same))
 
 
-c.loop("loop#1", invariant=_afl_inv, body_ensures=_afl_body)
+c.loop("iter:self._tp_config", invariant=_afl_inv, body_ensures=_afl_body)
 
 # ---------------------------------------------------------------- TriggerHandler.__process_call_backs
 c = contract(TH, "TriggerHandler.__process_call_backs", ["C15", "C01"])
@@ -258,7 +258,7 @@ c.ens("does-not-suppress", lambda S_: Val.is_VNone(S_.result))
 # per-result guard: a result that fails with an Exception (e.g. a raising logger plugin) does not stop the others;
 # only a non-Exception BaseException may leave (it is contained by trace_call)
 c.sig("BaseException", "non-Exception-failure", post=lambda S_: Not(S_.I.exc_isa(S_.exc, "Exception")))
-c.loop("loop#1", body_no_raise=False)
+c.loop("iter:self.__results", body_no_raise=False)
 
 # ---------------------------------------------------------------- MetricActionContext / SpanActionContext.can_trigger
 from .c10_conditions import _can_trigger_post, ACTION_CTXS
@@ -399,4 +399,4 @@ def _actions_loop_body(L):
     return ok
 
 
-c.loop("loop#1", body_ensures=_actions_loop_body, body_no_raise=True)
+c.loop("iter:actions", body_ensures=_actions_loop_body, body_no_raise=True)
